@@ -518,6 +518,9 @@ func runLS(id, rest string, obs *vh.LineWriter, st *vh.Stats) {
 				case "boot":
 					err = db.SaveBootstrapInfo(lsShard, lsReplica, pb.Bootstrap{Join: t[1] == "1",
 						Type: pb.StateMachineType(u64(t[2])), Addresses: map[uint64]string{lsReplica: "a3"}})
+				case "compact":
+					// log compaction up to an index (what a replica does after its own snapshots)
+					err = db.RemoveEntriesTo(lsShard, lsReplica, u64(t[1]))
 				case "reopen":
 					err = db.Close()
 					db = openDB(kind, fs)
@@ -594,6 +597,54 @@ func runLS(id, rest string, obs *vh.LineWriter, st *vh.Stats) {
 		vis = len(ents)
 	}
 	obs.Printf("%s ls post state=%s snap=%s boot=%s visible=%d\n", id, stateS, snapS, bootS, vis)
+	// life after the repair: the replica is elected in a new term and appends
+	// entries right above the imported index; they must be readable from the
+	// running store and after one more restart
+	life := uint64(3)
+	if f["life"] != "" {
+		life = u64(f["life"])
+	}
+	now, count, reopened := -1, -1, -1
+	lifeOK := func(es []pb.Entry) int {
+		for i, e := range es {
+			if e.Index != ss.Index+1+uint64(i) || e.Term != ss.Term+1 {
+				return -2
+			}
+		}
+		return len(es)
+	}
+	pl := vh.Catch(func() {
+		ne := make([]pb.Entry, 0, life)
+		for i := uint64(0); i < life; i++ {
+			ne = append(ne, pb.Entry{Index: ss.Index + 1 + i, Term: ss.Term + 1, Cmd: []byte("new")})
+		}
+		if e := db.SaveRaftState([]pb.Update{{ShardID: lsShard, ReplicaID: lsReplica,
+			State: pb.State{Term: ss.Term + 1, Vote: lsReplica, Commit: ss.Index + life}, EntriesToSave: ne}}, 1); e != nil {
+			return
+		}
+		if es, _, e := db.IterateEntries(nil, 0, lsShard, lsReplica, ss.Index+1, ss.Index+life+1, 1<<30); e == nil {
+			now = lifeOK(es)
+		}
+		if e := db.Close(); e != nil {
+			return
+		}
+		db = openDB(kind, fs)
+		// ReadRaftState reports a range [FirstIndex, FirstIndex+EntryCount) that may
+		// start at the snapshot index itself; what matters is where it ends
+		if rs2, e := db.ReadRaftState(lsShard, lsReplica, ss.Index); e == nil && rs2.EntryCount > 0 {
+			count = int(rs2.FirstIndex + rs2.EntryCount - 1 - ss.Index)
+		}
+		if es, _, e := db.IterateEntries(nil, 0, lsShard, lsReplica, ss.Index+1, ss.Index+life+1, 1<<30); e == nil {
+			reopened = lifeOK(es)
+		}
+	})
+	if life > 0 {
+		obs.Printf("%s ls life now=%d count=%d reopened=%d\n", id, now, count, reopened)
+		if pl != "" || now != int(life) || count != int(life) || reopened != int(life) {
+			st.Violation(id, fmt.Sprintf("ENTRIES-AFTER-REPAIR-UNREADABLE: %d entries appended above the imported index %d: readable now %d, log range after restart ends %d above the index, readable after restart %d %s",
+				life, ss.Index, now, count, reopened, pl))
+		}
+	}
 	_ = db.Close()
 	closed = true
 	// monitor: the property's statement about the store after import
@@ -842,11 +893,28 @@ func genLoc(r *vh.Rand) string {
 }
 
 func genLS(r *vh.Rand, kind string) string {
+	if r.Chance(1, 4) {
+		// a survivor that is ahead of the export: entries up to n, its own snapshot
+		// at s, log compacted up to c, the export is older than that
+		n := 4 + r.Intn(30)
+		s := 2 + r.Intn(n-1)
+		c := 1 + r.Intn(s)
+		ops := []string{fmt.Sprintf("ents 1 %d 1", n), fmt.Sprintf("snap %d 1", s), fmt.Sprintf("compact %d", c)}
+		if r.Bool() {
+			ops = append(ops, "reopen")
+		}
+		if r.Bool() {
+			ops = append(ops, fmt.Sprintf("ents %d %d 2", n+1, 1+r.Intn(3)))
+		}
+		idx := 1 + r.Intn(s)
+		return fmt.Sprintf("ls db=%s imp=%d,%d,%d life=%d | %s", kind, idx, 1+r.Intn(3), 1+r.Intn(3), 1+r.Intn(6), strings.Join(ops, " ; "))
+	}
 	var ops []string
 	last := uint64(0)
 	term := uint64(1)
 	lastSnap := uint64(0)
 	n := 2 + r.Intn(8)
+	compacted := false
 	for i := 0; i < n; i++ {
 		switch r.Intn(8) {
 		case 0:
@@ -867,7 +935,13 @@ func genLS(r *vh.Rand, kind string) string {
 				lastSnap = idx
 			}
 		case 6:
-			ops = append(ops, fmt.Sprintf("boot %d %d", r.Intn(2), 1+r.Intn(3)))
+			if r.Bool() {
+				ops = append(ops, fmt.Sprintf("boot %d %d", r.Intn(2), 1+r.Intn(3)))
+			} else if lastSnap > 0 {
+				// the replica compacts its log behind its own snapshot
+				ops = append(ops, fmt.Sprintf("compact %d", 1+r.Intn(int(lastSnap))))
+				compacted = true
+			}
 		default:
 			ops = append(ops, "reopen")
 			if r.Chance(1, 2) {
@@ -892,7 +966,11 @@ func genLS(r *vh.Rand, kind string) string {
 	if r.Chance(1, 15) {
 		typ = 0
 	}
-	return fmt.Sprintf("ls db=%s imp=%d,%d,%d | %s", kind, idx, 1+r.Intn(int(term)+1), typ, strings.Join(ops, " ; "))
+	// a survivor whose own snapshot and compaction point are beyond the export
+	if compacted && r.Bool() {
+		idx = 1 + uint64(r.Intn(int(lastSnap)))
+	}
+	return fmt.Sprintf("ls db=%s imp=%d,%d,%d life=%d | %s", kind, idx, 1+r.Intn(int(term)+1), typ, 1+r.Intn(5), strings.Join(ops, " ; "))
 }
 
 func gen(a vh.Args) {
